@@ -297,7 +297,7 @@ example : describe ⟨3, 0, [⟨true, 0x8a, 3, 200, 1, [0x61]⟩, ⟨false, 2, 1
 
 open Nxs.Describe Nxs.Handshake in
 /-- round 7 (sharpness of the above): AFTER the last common-info exchange every channel must be read exactly once —
-    if a channel answer is read twice (`k` extra reads of channel 0 of a device that has one), `Device.__init__`
+    if a channel answer is read twice (one extra read of channel 0 of a device that has one), `Device.__init__`
     refuses the collection -/
 theorem description_needs_every_channel_once (cfg : DevCfg) (h : CfgOk cfg) (ch : ChanCfg) (rest : List ChanCfg)
     (hc : cfg.chans = ch :: rest) (padding : Nat) :
